@@ -1065,8 +1065,12 @@ META = {
                   "current frame, alloca pointer, module def-info and the thread-local guards on every exit path; outcomes never depend on stale "
                   "call-stack slots; after any history of evaluations a probe behaves as on a fresh evaluator; an error leaving an instruction "
                   "carries its span and the chain of active calls. Over MiniStar (coq/Core/Sem.v): every builtin and method is total (Ok or Fail, "
-                  "never out of fuel) on every argument list, with exact rejection conditions for len/range/list.pop, and every failure of a "
-                  "program carries the line of one of its statements. The 'never panics/aborts' half is NOT a theorem: it is a search over the "
+                  "never out of fuel) on every argument list, with exact rejection conditions for len/range/list.pop, and - FULL, "
+                  "C07_error_has_line, coq/EvalState/Lines.v - for every program and every fuel, if run_program fails then the failure "
+                  "carries Some line and that line is the line of a statement occurring in the program text at some nesting depth "
+                  "(branches, loop bodies, bodies of defs the program defines); proved by induction on fuel through eval/call/exec "
+                  "(including the sorted(key=, reverse=) key calls) with the closure-store invariant 'every closure body in the store "
+                  "consists of statements whose lines are lines of the program'. The 'never panics/aborts' half is NOT a theorem: it is a search over the "
                   "implementation's own native catalogue x an argument catalogue, deep-recursion probes and failure histories, in child "
                   "processes (panic, abort, signal, hang and memory blow-up are all observed), with every error's span and call stack "
                   "validated against the source files.",
